@@ -24,7 +24,7 @@ PROPERTY = {
     "technique": "bounded stand-in: run-time contract check of the real disasmEngine / AsmBlock.split / bbl_simplifier over a seeded "
                  "family of byte buffers, start addresses and engine options, against independent single-instruction decodings",
     "explanation": "For every buffer (structured programs assembled from C32's generator, the same with 1..4 corrupted bytes, random "
-                   "bytes), start offset and option set (dont_dis, split_dis, lines_wd, blocs_wd, follow_call, dontdis_retcall) on "
+                   "bytes, meshes of short runs whose branches land on arbitrary instruction boundaries of each other), start offset and option set (dont_dis, split_dis, lines_wd, blocs_wd, follow_call, dontdis_retcall) on "
                    "x86-32, ARM and MIPS32: every block's instructions are consecutive and each has the bytes and length of the "
                    "single-instruction decoding at its offset; no instruction offset belongs to two blocks; a branch destination "
                    "that is an instruction boundary of the result starts a block; the c_to constraints of a block are exactly "
@@ -46,9 +46,45 @@ PROPERTY = {
 ARCH_ATTR = {"x86_32": 32, "arml": "l", "mips32l": "l"}
 
 
+def mesh_buffer(rng, arch):
+    """short runs of one-unit instructions tied by branches to arbitrary instruction boundaries of the buffer: blocks that jump
+    into the middle of each other (several splits of the same blocks, in either order)"""
+    n = rng.randint(6, 16)
+    kinds = [rng.choice(("nop", "nop", "nop", "jcc", "jmp")) for _ in range(n)]
+    kinds[-1] = "jmp"
+    if arch == "x86_32":
+        sizes = [1 if k == "nop" else 2 for k in kinds]
+    else:
+        sizes = [4] * n
+    offs = [sum(sizes[:i]) for i in range(n)]
+    buf = bytearray()
+    for i, k in enumerate(kinds):
+        tgt = offs[rng.randrange(n)]
+        if arch == "x86_32":
+            if k == "nop":
+                buf += bytes([rng.choice((0x90, 0x40, 0x43))])
+            else:
+                rel = (tgt - (offs[i] + 2)) & 0xFF
+                buf += bytes([0xEB if k == "jmp" else rng.choice((0x74, 0x75)), rel])
+        else:
+            if k == "nop":
+                buf += (0xE1A00000 | rng.randrange(4)).to_bytes(4, "little")
+            else:
+                imm = ((tgt - (offs[i] + 8)) >> 2) & 0xFFFFFF
+                cond = 0xE if k == "jmp" else rng.choice((0x0, 0x1))
+                buf += ((cond << 28) | (0xA << 24) | imm).to_bytes(4, "little")
+    return bytes(buf), offs
+
+
 def make_buffer(rng, arch):
     """-> (bytes, base, start, kind)"""
-    kind = rng.choice(("code", "code", "code", "corrupt", "random"))
+    kind = rng.choice(("code", "code", "code", "corrupt", "random", "mesh", "mesh"))
+    if kind == "mesh" and arch in ("x86_32", "arml"):
+        base = rng.choice((0, 0x1000, 0x400000))
+        data, offs = mesh_buffer(rng, arch)
+        return data, base, base + rng.choice(offs), kind
+    if kind == "mesh":
+        kind = "code"
     if kind == "random":
         n = rng.randint(8, 96)
         if arch != "x86_32":
